@@ -118,6 +118,10 @@ func (c04) Gen(seed uint64, tier string) Case {
 			if r.Bool(0.15) {
 				call.SleepMs = 1 + r.Intn(1000)
 			}
+			if r.Bool(0.15) {
+				call.After = []string{"td", "fin-empty", "fin-added", "destroyed", "created"}[r.Intn(5)]
+				call.SleepMs = 0
+			}
 			calls = append(calls, call)
 		}
 		c.Callers = append(c.Callers, calls)
@@ -627,12 +631,25 @@ func (c04) Run(t *testing.T, cs Case, trace bool) *Outcome {
 				return
 			}
 		}
+		trig := newCommitTriggers(TypeA)
+		for _, cm := range w.Log {
+			trig.fire(cm)
+		}
+		w.onCommit = trig.fire
+		trigCtx, trigCancel := context.WithCancel(ctx)
+		defer trigCancel()
 		for i, calls := range c.Callers {
 			name := fmt.Sprintf("caller%d", i)
 			s.Spawn(name, func() {
 				for _, call := range calls {
 					if call.SleepMs > 0 {
 						simrt.Sleep(time.Duration(call.SleepMs) * time.Millisecond)
+					}
+					if call.After != "" {
+						if !trig.wait(trigCtx, call.After, call.ID) {
+							return
+						}
+						out.fault("reactive-caller:" + call.After + "->" + call.Kind)
 					}
 					simrt.Yield("caller.op")
 					rec := &rmwRec{Task: name, Call: call, Invoke: len(w.Log)}
@@ -654,6 +671,12 @@ func (c04) Run(t *testing.T, cs Case, trace bool) *Outcome {
 		}
 		if r := s.Settle(400000); r != simrt.Quiescent {
 			out.HarnessErr = fmt.Sprintf("C04 run did not become quiescent: %v live=%v", r, s.Live())
+			return
+		}
+		// callers waiting for a commit trigger that never came are harness waits, not blocked helper calls: release them
+		trigCancel()
+		if r := s.Settle(400000); r != simrt.Quiescent {
+			out.HarnessErr = fmt.Sprintf("C04 run did not become quiescent after releasing trigger waits: %v live=%v", r, s.Live())
 			return
 		}
 		if n := s.LiveCount(); n != 0 {
